@@ -17,7 +17,12 @@
 //! coordinator do not go through TensorStore, so there is no yield point INSIDE their operations; the
 //! harness yields between operations, which makes the stream a deterministic exploration of
 //! operation-level interleavings whose linearisation is replayed on the model.  Races inside an
-//! operation are left to the OS-thread hammers (`threads.*`).
+//! operation are left to the OS-thread hammers (`threads.*`).  The one window the property depends on —
+//! between "conflict found" and "wait-for edge recorded" inside `try_lock_with_wait_tracking` — has its own
+//! stream `threads.prepare_vs_end.*` (spin-aligned rounds of exactly the two racing calls, judged after both
+//! returned), a Lean model at step granularity (Locks/SectionModel.lean, tied to the source at call granularity
+//! by `section.calls`) and a scheduled stream `sched.prepare_vs_end` that follows the model's witness schedule
+//! on the real code once the proposed yield hook (/verif/proposed/C12-hook-wait-tracking-yield.diff) exists.
 use nverif::*;
 use serde_json::json;
 use std::collections::{BTreeMap, BTreeSet, HashMap};
